@@ -34,7 +34,9 @@ RULE = ("cases = (a) pipelines: scanner inputs (direct found_host calls, cache-f
         "server under arbitrary chunkings (including over-long lines); (d) the pre-existing hosts file in every "
         "encoding (ASCII, UTF-8, Latin-1 bytes, stray continuation bytes, NUL, UTF-16) x the helper's locale (UTF-8, "
         "C/ASCII), compared byte for byte; (e) scale: thousands of long records (hundreds of KiB) pending at once on "
-        "the hostwatch socket, recv honouring the size asked for. Every case runs at a verbosity level from the rotation [0,0,3,0,2,0,13,1] shifted by the seed "
+        "the hostwatch socket, recv honouring the size asked for; (f) time: between the scanner reads of a case a "
+        "virtual clock (every reference the relay's module holds to the time module) moves by 0 / 0.2 s / 5 s / 20 s / "
+        "15 min / a backward step, read after read. Every case runs at a verbosity level from the rotation [0,0,3,0,2,0,13,1] shifted by the seed "
         "(13 = level 3 with a failing stderr), set around every call into the real code; the level is part of the replay. "
         "Non-trivial = at least one record was "
         "emitted / skipped / delivered; distinct = distinct canonical input")
@@ -88,6 +90,44 @@ def next_level(ctx, fixed=None):
     LEVEL[0] = fixed
     ctx.hist('verbosity:%d' % fixed)
     return fixed
+
+
+TIME_STEPS = [0, 0.2, 5, 20, 900, -30]    # seconds the virtual clock moves between two scanner reads
+
+
+def next_clock(ctx, fixed=None):
+    """Time is a dimension of the server relay: between the reads of a case a virtual clock advances by
+    TIME_STEPS, read after read, starting at an offset that rotates with the case number and the seed."""
+    if fixed is None:
+        fixed = (CASE_NO[0] + ctx.seed) % len(TIME_STEPS)
+    ctx.hist('clock-offset:%d' % fixed)
+    return fixed
+
+
+class virtual_time:
+    """`with virtual_time(fn, now):` — every reference the function's module holds to the `time` module
+    (whatever it is called there) or to time.time / time.monotonic is replaced by a clock reading `now`."""
+
+    def __init__(self, fn, now):
+        self.g = fn.__globals__
+        self.now = now
+
+    def __enter__(self):
+        import time as real
+        clk = lambda: self.now  # noqa
+        self.saved = {}
+        for k, v in list(self.g.items()):
+            if v is real:
+                self.saved[k] = v
+                self.g[k] = _Proxy(real, time=clk, monotonic=clk, perf_counter=clk,
+                                   time_ns=lambda: int(self.now * 1e9), monotonic_ns=lambda: int(self.now * 1e9))
+            elif v in (real.time, real.monotonic, real.perf_counter):
+                self.saved[k] = v
+                self.g[k] = clk
+
+    def __exit__(self, *a):
+        self.g.update(self.saved)
+        return False
 
 
 class EioStderr:
@@ -309,7 +349,10 @@ class FakeSock:
 class Server:
     """Runs the real server.main up to its main loop and keeps the real hostwatch_ready closure."""
 
-    def __init__(self):
+    def __init__(self, clock=0):
+        self.clock_offset = clock
+        self.now = 1700000000.0
+        self.reads = 0
         import sshuttle.server as server
         import sshuttle.ssnet as ssnet
         import sshuttle.helpers as helpers
@@ -357,8 +400,10 @@ class Server:
         if chunk is not None:
             self.sock.next = chunk
         w0 = len(self.wfile.written)
+        self.now += TIME_STEPS[(self.clock_offset + self.reads) % len(TIME_STEPS)]
+        self.reads += 1
         try:
-            with at_level():
+            with at_level(), virtual_time(self.ready, self.now):
                 self.ready(self.sock)
         except AssertionError:
             return 'assertLen', None, None, b''
@@ -857,6 +902,7 @@ def pipeline_case(ctx, case, tmpdir):
     """Run one end-to-end case on the real code. Returns the correspondence log."""
     log = Log('pipeline')
     case['level'] = next_level(ctx, case.get('level'))
+    case['clock'] = next_clock(ctx, case.get('clock'))
     ops = [tuple(o) for o in case['ops']]
     # 1. scanner
     sc = Scanner(case['encoding'], tmpdir)
@@ -889,7 +935,7 @@ def pipeline_case(ctx, case, tmpdir):
         ctx.hist('emitted:' + ('valid' if NAME_RE.match(n.decode('utf-8', 'replace')) and len(n) <= 253 and
                                QUAD_RE.match(i.decode('utf-8', 'replace')) else 'invalid'))
     # 2. server
-    srv = Server()
+    srv = Server(case['clock'])
     if case.get('chunks') is None:
         chunks = chunkings(ctx.rng, stream)
     else:
@@ -1068,12 +1114,13 @@ def bulk_records(n, namelen, seed):
     return out
 
 
-def bulk_case(ctx, params, tmpdir, level=None):
+def bulk_case(ctx, params, tmpdir, level=None, clock=None):
     """SCALE: several hundred KiB of scanner output pending at once on the hostwatch socket; the real relay
     reads it with whatever size it asks recv() for (the fake socket honours the size); every record must
     reach sethostip exactly once, in order.  The helper stage is left out (one rewrite per record)."""
     log = Log('bulk')
     case = dict(kind='bulk', params=params, level=next_level(ctx, level))
+    case['clock'] = next_clock(ctx, clock)
     recs = bulk_records(params['n'], params['namelen'], params['seed'])
     sc = Scanner('utf-8', tmpdir)
     try:
@@ -1085,7 +1132,7 @@ def bulk_case(ctx, params, tmpdir, level=None):
         return log
     emitted = complete_records(stream)
     ctx.hist('bulk:bytes-pending', len(stream))
-    srv = Server()
+    srv = Server(case['clock'])
     cl = Client()
     log.ins.append('hw-reset')
     log.outs.append('ok')
@@ -1128,12 +1175,13 @@ def bulk_case(ctx, params, tmpdir, level=None):
     return log
 
 
-def stream_case(ctx, stream, chunks, level=None):
+def stream_case(ctx, stream, chunks, level=None, clock=None):
     """Arbitrary bytes through the real hostwatch_ready (correspondence + reassembly oracle)."""
     log = Log('stream')
     level = next_level(ctx, level)
+    clock = next_clock(ctx, clock)
     log.nontrivial = len(chunks) > 1
-    srv = Server()
+    srv = Server(clock)
     log.ins.append('hw-reset')
     log.outs.append('ok')
     payloads = b''
@@ -1151,7 +1199,7 @@ def stream_case(ctx, stream, chunks, level=None):
     ctx.hist('stream:ok')
     if payloads != fed[:cut] or srv.hw.leftover != fed[cut:]:
         ctx.violation('C19:server:reassembly-lost-or-duplicated-bytes',
-                      case=dict(kind='stream', chunks=[hexb(c) for c in chunks], level=level),
+                      case=dict(kind='stream', chunks=[hexb(c) for c in chunks], level=level, clock=clock),
                       expected=dict(payloads=hexb(fed[:cut])[:400]), observed=dict(payloads=hexb(payloads)[:400]))
     return log
 
@@ -1310,13 +1358,13 @@ def replay(ctx, rep):
         if isinstance(case.get('hosts_file'), dict):
             case['hosts_file'] = bytes.fromhex(case['hosts_file']['hex'])
         if case.get('kind') == 'bulk':
-            bulk_case(c2, case['params'], tmpdir, level=case.get('level', 0))
+            bulk_case(c2, case['params'], tmpdir, level=case.get('level', 0), clock=case.get('clock', 0))
         elif case.get('kind') == 'payload':
             payload_case(c2, common.unhex(case['payload']), tmpdir, tuple(case['ports']), case['hosts_file'],
                          level=case.get('level', 0), locale=case.get('locale', 'utf-8'))
         elif case.get('kind') == 'stream':
             chunks = [common.unhex(c) for c in case['chunks']]
-            stream_case(c2, b''.join(chunks), chunks, level=case.get('level', 0))
+            stream_case(c2, b''.join(chunks), chunks, level=case.get('level', 0), clock=case.get('clock', 0))
         else:
             ops = []
             for o in case['ops']:
@@ -1324,7 +1372,7 @@ def replay(ctx, rep):
                 if o[0] in ('cache', 'etc') and isinstance(o[1], dict):
                     o[1] = bytes.fromhex(o[1]['hex'])
                 ops.append(tuple(o))
-            pipeline_case(c2, dict(case, ops=ops, level=case.get('level', 0)), tmpdir)
+            pipeline_case(c2, dict(case, ops=ops, level=case.get('level', 0), clock=case.get('clock', 0)), tmpdir)
     finally:
         LEVEL[0] = 0
         shutil.rmtree(tmpdir, ignore_errors=True)
